@@ -212,6 +212,40 @@ def fs5(P, C):
     C.extra["reserved_predicate"] = ["%s %s/%s" % p for p in pred]
 
 
+# what the predicate reserves today, confirmed by reading (one line of reason each).  The reader drops every card the predicate matches, so
+# widening an entry silently loses auxiliary keys of existing files; narrowing an indexed family lets table metadata in as auxiliary keys.
+RESERVED_TABLE = {
+    "BITPIX": ("prefix", 6, "structural; historic prefix match (also refuses BITPIX-prefixed user keys, which only makes write_key stricter)"),
+    "SIMPLE": ("prefix", 6, "structural; historic prefix match"),
+    "TYPE": ("prefix", 4, "written by the writer itself; historic prefix match"),
+    "ORDER": ("prefix", 5, "indexed family ORDER, ORDERn"),
+    "NAXIS": ("prefix", 5, "indexed family NAXIS, NAXISn"),
+    "PERIOD": ("prefix", 6, "indexed family PERIODn"),
+    "EXTEND": ("prefix", 6, "structural; historic prefix match"),
+    "COMMENT": ("prefix", 7, "commentary cards carry no value"),
+    "END": ("exact", None, "terminates the header (D24); exact on purpose: ENDTIME, ENDCAP ... are ordinary user keys"),
+}
+
+
+def fs5b(P, C):
+    C.rule("FS-5b", "reservedFitsKeyword reserves exactly the confirmed families, each with the confirmed kind of match (prefix of n characters or "
+           "exact): the predicate filters the reader's header passes as well as write_key, so a wider match silently drops auxiliary keys of "
+           "existing files and refuses valid keys, a narrower one admits table metadata as auxiliary keys", floor=9)
+    pf, pred = parse_predicate(P)
+    seen = {}
+    for (kind, lit, n) in pred:
+        seen.setdefault(lit, []).append((kind, n))
+    for lit, (kind, n, why) in sorted(RESERVED_TABLE.items()):
+        got = seen.get(lit, [])
+        ok = got == [(kind, n)]
+        C.ob("FS-5b", "reservedFitsKeyword", lit, ok, pf.where(),
+             ("%s matched %s as confirmed (%s)" % (lit, "exactly" if kind == "exact" else "by its first %d characters" % n, why)) if ok else
+             "%s is now matched %s (confirmed: %s; %s)" % (lit, ["%s/%s" % g for g in got] or "not at all", "exact" if kind == "exact" else "prefix/%d" % n, why))
+    extra = sorted(set(seen) - set(RESERVED_TABLE))
+    C.ob("FS-5b", "reservedFitsKeyword", "no-further-families", not extra, pf.where(),
+         "no family beyond the confirmed ones is reserved" if not extra else "new reserved families %s: cards of that name in existing files will be dropped on reading" % extra)
+
+
 def uw3(P, C):
     C.rule("UW-3", "write_key: no unsigned subtraction in the key/value length arithmetic can wrap: the right operand is bounded by a dominating "
            "throwing guard, or the variable was defined as (non-negative quantity) + constant", floor=3)
@@ -402,4 +436,5 @@ def run(P, C):
     ts1w(P, C)
     fs4(P, C)
     fs5(P, C)
+    fs5b(P, C)
     uw3(P, C)
